@@ -99,6 +99,17 @@ def rule2_nullable(ctx, v):
 
 
 # --------------------------------------------------------------------- C01.3
+def publication_events(f):
+    """the two points at which myth_create_ex_body makes the new thread visible: the child-first switch and the parent-first push"""
+    news = call_sites(f, 'get_new_myth_thread_struct_desc')
+    if len(news) != 1:
+        return []
+    nt = news[0].id
+    sw = [s.ins for s in switch_sites(f) if s.is_swap]
+    pushes = [p for p in call_sites(f, 'myth_queue_push') if f.sources(p.args[1]) == f.sources(nt)]
+    return sw + pushes
+
+
 def rule3_publish(ctx, v, rule='C01.3', only=None):
     ctx.doc(rule, 'in myth_create_ex_body every descriptor field of the new thread (result=arg, status, join_thread, '
             'detached, env, stack, context.rsp, tls root; entry_func on the parent-first branch) is stored on every '
